@@ -1,10 +1,11 @@
 #!/bin/bash
-# usage: tools/eval_seed.sh <dir with patch.diff> [props]
+# usage: tools/eval_seed.sh <dir with patch.diff | patch file> [props]
 # Applies the patch to a fresh scratch checkout of /repo HEAD and runs the quick checks
 # against it (no evidence, no controls); prints the obligations that fired.  Scratch copy removed.
-D="$(cd "$1" && pwd)"; shift
+if [ -d "$1" ]; then P="$(cd "$1" && pwd)/patch.diff"; else P="$(cd "$(dirname "$1")" && pwd)/$(basename "$1")"; fi
+shift
 S=$(mktemp -d /tmp/evseed.XXXXXX)
 git -C /repo archive HEAD | tar -x -C "$S"
-( cd "$S" && patch -p1 -s -f < "$D/patch.diff" ) || echo "PATCH FAILED"
+( cd "$S" && patch -p1 -s -f < "$P" ) || echo "PATCH FAILED"
 "$(dirname "$0")/run_all_on.sh" "$S" "$@"
 rm -rf "$S"
